@@ -289,6 +289,11 @@ pub struct Quirks {
     pub missing_filter_is_rc4: bool,
     /// CFM /Identity is read as CFM /None
     pub cfm_identity_is_none: bool,
+    /// a stream's Crypt filter parameters are looked at only when /DecodeParms is a dictionary; an
+    /// array (one entry per filter) is ignored and StmF applies
+    pub crypt_parms_array_ignored: bool,
+    /// StmF / StrF spelled as the empty name (what lopdf's kept state writes for an absent entry) mean /Identity
+    pub empty_filter_name_is_identity: bool,
 }
 
 #[derive(Clone, Debug)]
@@ -410,7 +415,10 @@ impl EncDict {
         }
         // the RC4 fallback quirk concerns the document-level defaults only
         let q = &Quirks { missing_filter_is_rc4: q.missing_filter_is_rc4 && !is_override, ..*q };
-        let name: &[u8] = name.unwrap_or(b"Identity");
+        let mut name: &[u8] = name.unwrap_or(b"Identity");
+        if name.is_empty() && q.empty_filter_name_is_identity {
+            name = b"Identity";
+        }
         if let Some(cfm) = self.cf.get(name) {
             // a CF entry *named* Identity is not allowed by the standard; the predefined filter wins
             // in a conforming reader. Such an entry is looked at only under the lookup quirk.
@@ -863,10 +871,12 @@ impl Ctx<'_> {
             // a Crypt filter in the stream's own filter chain overrides StmF; its Name defaults to Identity
             let filters: Vec<Vec<u8>> = match d.get(b"Filter") {
                 Ok(Object::Name(n)) => vec![n.clone()],
-                Ok(Object::Array(a)) => a.iter().filter_map(|x| if let Object::Name(n) = x { Some(n.clone()) } else { None }).collect(),
+                // (an entry that is not a name keeps its position: DecodeParms is parallel to this array)
+                Ok(Object::Array(a)) => a.iter().map(|x| if let Object::Name(n) = x { n.clone() } else { vec![] }).collect(),
                 _ => vec![],
             };
-            if let Some(pos) = filters.iter().position(|f| f == b"Crypt") {
+            let array_ignored = self.q.crypt_parms_array_ignored && matches!(d.get(b"DecodeParms"), Ok(Object::Array(_)));
+            if let Some(pos) = filters.iter().position(|f| f == b"Crypt").filter(|_| !array_ignored) {
                 let parms: Option<&Dictionary> = match d.get(b"DecodeParms") {
                     Ok(Object::Dictionary(p)) if filters.len() == 1 => Some(p),
                     Ok(Object::Array(a)) => match a.get(pos) {
@@ -1485,6 +1495,16 @@ pub mod menu {
         /// C05: a document *loaded* from a file with an object stream (lopdf keeps the /ObjStm container in
         /// memory) in which a member object was modified after loading
         ObjStmLoaded,
+        /// "ladders": one string at *every* nesting depth 1..=D inside arrays / dictionaries / both
+        /// alternating / a stream dictionary, D within what the reader accepts (so the document can be
+        /// saved and loaded), plus a wide array and a wide dictionary
+        DeepLoadable,
+        /// the same ladders with D far beyond what the reader accepts: exists in memory only
+        DeepMemory,
+        /// streams whose Crypt filter parameters are given in the *array* form of /DecodeParms
+        CryptArray,
+        /// streams with a Crypt filter and no /DecodeParms at all (every parameter at its default)
+        CryptBare,
     }
 
     impl DocKind {
@@ -1498,6 +1518,10 @@ pub mod menu {
                 DocKind::Page => "page",
                 DocKind::MetaDict => "metadata_typed_dictionaries",
                 DocKind::ObjStmLoaded => "loaded_from_object_stream_then_edited",
+                DocKind::DeepLoadable => "nesting_ladders_within_reader_limit",
+                DocKind::DeepMemory => "nesting_ladders_beyond_reader_limit",
+                DocKind::CryptArray => "crypt_override_decodeparms_array",
+                DocKind::CryptBare => "crypt_filter_without_decodeparms",
             }
         }
         pub fn from_name(s: &str) -> DocKind {
@@ -1509,6 +1533,10 @@ pub mod menu {
                 "crypt_override" => DocKind::Crypt,
                 "metadata_typed_dictionaries" => DocKind::MetaDict,
                 "loaded_from_object_stream_then_edited" => DocKind::ObjStmLoaded,
+                "nesting_ladders_within_reader_limit" => DocKind::DeepLoadable,
+                "nesting_ladders_beyond_reader_limit" => DocKind::DeepMemory,
+                "crypt_override_decodeparms_array" => DocKind::CryptArray,
+                "crypt_filter_without_decodeparms" => DocKind::CryptBare,
                 _ => DocKind::Page,
             }
         }
@@ -1524,6 +1552,354 @@ pub mod menu {
             DocKind::MetaDict,
             DocKind::ObjStmLoaded,
         ];
+        /// kinds that need crypt filters (V >= 4)
+        pub fn needs_filters(self) -> bool {
+            matches!(self, DocKind::Crypt | DocKind::CryptArray | DocKind::CryptBare)
+        }
+        pub fn is_deep(self) -> bool {
+            matches!(self, DocKind::DeepLoadable | DocKind::DeepMemory)
+        }
+    }
+
+    /// ladder depth `build_doc` uses for the two deep kinds (C05 passes measured / larger depths to `build_deep`)
+    pub const DEEP_LOADABLE_DEFAULT: usize = 120;
+    pub const DEEP_MEMORY_DEFAULT: usize = 300;
+
+    /// Which containers a ladder is made of, outermost first.
+    #[derive(Clone, Copy, PartialEq, Eq, Debug)]
+    pub enum Nest {
+        Arrays,
+        Dicts,
+        ArrayFirst,
+        DictFirst,
+        /// level 1 is the dictionary of a stream, deeper levels alternate array / dictionary
+        StreamDict,
+    }
+
+    pub const NESTS: [Nest; 5] = [Nest::Arrays, Nest::Dicts, Nest::ArrayFirst, Nest::DictFirst, Nest::StreamDict];
+
+    /// A ladder: `depth` nested containers; the container at level k (1 = outermost) holds one string of
+    /// 16..33 bytes - that string is enclosed by exactly k arrays/dictionaries of the indirect object -
+    /// and the container of level k+1.
+    pub fn ladder(nest: Nest, depth: usize, salt: u32) -> Object {
+        assert!(depth >= 1);
+        let mut child: Option<Object> = None;
+        for k in (1..=depth).rev() {
+            let st = s(16 + (k * 5 + salt as usize) % 18, salt.wrapping_mul(31).wrapping_add(k as u32), k % 7 == 0);
+            let as_array = match nest {
+                Nest::Arrays => true,
+                Nest::Dicts => false,
+                Nest::ArrayFirst => k % 2 == 1,
+                Nest::DictFirst => k % 2 == 0,
+                Nest::StreamDict => k % 2 == 0,
+            };
+            let o = if k == 1 && nest == Nest::StreamDict {
+                let mut d = dict(vec![("S", st)]);
+                if let Some(c) = child.take() {
+                    d.set("K", c);
+                }
+                Object::Stream(Stream::new(d, pattern(24, salt + 7)))
+            } else if as_array {
+                let mut v = vec![Object::Integer(k as i64), st];
+                if let Some(c) = child.take() {
+                    v.push(c);
+                }
+                Object::Array(v)
+            } else {
+                let mut d = dict(vec![("N", Object::Integer(k as i64)), ("S", st)]);
+                if let Some(c) = child.take() {
+                    d.set("K", c);
+                }
+                Object::Dictionary(d)
+            };
+            child = Some(o);
+        }
+        child.unwrap()
+    }
+
+    /// The deep documents: object 1 catalog, objects 2..=6 one ladder per `Nest`; `DeepLoadable` adds a wide
+    /// array (1030 strings) and a wide dictionary (260 strings) as objects 7 and 8.
+    pub fn build_deep(kind: DocKind, depth: usize, id0: &[u8]) -> Document {
+        let mut doc = Document::with_version("1.7");
+        doc.objects.insert((1, 0), Object::Dictionary(dict(vec![("Type", Object::Name(b"Catalog".to_vec()))])));
+        for (i, nest) in NESTS.iter().enumerate() {
+            doc.objects.insert((2 + i as u32, 0), ladder(*nest, depth, 200 + 10 * i as u32));
+        }
+        doc.max_id = 6;
+        if kind == DocKind::DeepLoadable {
+            let wide: Vec<Object> = (0..1030).map(|i| if i % 10 == 9 { Object::Integer(i) } else { s(16 + (i as usize % 2), 300 + i as u32, i % 3 == 0) }).collect();
+            doc.objects.insert((7, 0), Object::Array(wide));
+            let mut d = Dictionary::new();
+            for i in 0..260u32 {
+                d.set(format!("K{}", i), s(16 + (i as usize % 3), 400 + i, i % 2 == 0));
+            }
+            doc.objects.insert((8, 0), Object::Dictionary(d));
+            doc.max_id = 8;
+        }
+        finish_trailer(&mut doc, id0);
+        doc
+    }
+
+    fn finish_trailer(doc: &mut Document, id0: &[u8]) {
+        doc.trailer.set("Root", Object::Reference((1, 0)));
+        let id1: Vec<u8> = id0.iter().map(|b| b ^ 0x5a).collect();
+        doc.trailer.set(
+            "ID",
+            Object::Array(vec![Object::String(id0.to_vec(), StringFormat::Hexadecimal), Object::String(id1, StringFormat::Hexadecimal)]),
+        );
+    }
+
+    /// Shallowest nesting depth at which a string of `expected` differs from the string at the same place
+    /// in `actual` (None: no string differs, or the shapes differ).
+    pub fn first_differing_string_depth(expected: &Object, actual: &Object) -> Option<usize> {
+        fn go(a: &Object, b: &Object, depth: usize, best: &mut Option<usize>) {
+            match (a, b) {
+                (Object::String(x, _), Object::String(y, _)) => {
+                    if x != y && best.map(|d| depth < d).unwrap_or(true) {
+                        *best = Some(depth);
+                    }
+                }
+                (Object::Array(x), Object::Array(y)) => {
+                    for (p, q) in x.iter().zip(y.iter()) {
+                        go(p, q, depth + 1, best);
+                    }
+                }
+                (Object::Dictionary(x), Object::Dictionary(y)) => {
+                    for (k, p) in x.iter() {
+                        if let Ok(q) = y.get(k) {
+                            go(p, q, depth + 1, best);
+                        }
+                    }
+                }
+                (Object::Stream(x), Object::Stream(y)) => {
+                    for (k, p) in x.dict.iter() {
+                        if let Ok(q) = y.dict.get(k) {
+                            go(p, q, depth + 1, best);
+                        }
+                    }
+                }
+                _ => {}
+            }
+        }
+        let mut best = None;
+        go(expected, actual, 0, &mut best);
+        best
+    }
+
+    // -----------------------------------------------------------------------------------------
+    // shapes of the trailer's /ID entry
+
+    #[derive(Clone, Copy, PartialEq, Eq, Debug, Hash)]
+    pub enum IdShape {
+        /// two hexadecimal strings (what every other document of the menu has)
+        Hex,
+        /// the same bytes written as literal strings
+        Literal,
+        /// the first element is the empty string
+        EmptyString,
+        /// an array with the first element only
+        OneElement,
+        /// no /ID entry
+        Absent,
+        /// /ID []
+        EmptyArray,
+        /// the first element is an integer
+        FirstInteger,
+        /// the first element is a name
+        FirstName,
+        /// /ID is a string, not an array
+        NotArray,
+    }
+
+    impl IdShape {
+        pub const ALL: [IdShape; 9] = [
+            IdShape::Hex,
+            IdShape::Literal,
+            IdShape::EmptyString,
+            IdShape::OneElement,
+            IdShape::Absent,
+            IdShape::EmptyArray,
+            IdShape::FirstInteger,
+            IdShape::FirstName,
+            IdShape::NotArray,
+        ];
+        pub fn name(self) -> &'static str {
+            match self {
+                IdShape::Hex => "hex",
+                IdShape::Literal => "literal",
+                IdShape::EmptyString => "first_element_empty_string",
+                IdShape::OneElement => "one_element",
+                IdShape::Absent => "absent",
+                IdShape::EmptyArray => "empty_array",
+                IdShape::FirstInteger => "first_element_integer",
+                IdShape::FirstName => "first_element_name",
+                IdShape::NotArray => "string_instead_of_array",
+            }
+        }
+        pub fn from_name(s: &str) -> IdShape {
+            IdShape::ALL.into_iter().find(|x| x.name() == s).unwrap_or(IdShape::Hex)
+        }
+        /// true if the first element of /ID is a string, i.e. Algorithm 2 (R <= 4) has its input
+        pub fn usable(self) -> bool {
+            matches!(self, IdShape::Hex | IdShape::Literal | IdShape::EmptyString | IdShape::OneElement)
+        }
+        /// the bytes of the first element when it is a string
+        pub fn id0(self, id0: &[u8]) -> Option<Vec<u8>> {
+            match self {
+                IdShape::Hex | IdShape::Literal | IdShape::OneElement => Some(id0.to_vec()),
+                IdShape::EmptyString => Some(vec![]),
+                _ => None,
+            }
+        }
+        /// Rewrite the trailer's /ID entry of `doc` in this shape.
+        pub fn apply(self, doc: &mut Document, id0: &[u8]) {
+            let id1: Vec<u8> = id0.iter().map(|b| b ^ 0x5a).collect();
+            let hexs = |b: &[u8]| Object::String(b.to_vec(), StringFormat::Hexadecimal);
+            let lit = |b: &[u8]| Object::String(b.to_vec(), StringFormat::Literal);
+            let v = match self {
+                IdShape::Hex => Some(Object::Array(vec![hexs(id0), hexs(&id1)])),
+                IdShape::Literal => Some(Object::Array(vec![lit(id0), lit(&id1)])),
+                IdShape::EmptyString => Some(Object::Array(vec![lit(b""), hexs(&id1)])),
+                IdShape::OneElement => Some(Object::Array(vec![hexs(id0)])),
+                IdShape::Absent => None,
+                IdShape::EmptyArray => Some(Object::Array(vec![])),
+                IdShape::FirstInteger => Some(Object::Array(vec![Object::Integer(42), hexs(&id1)])),
+                IdShape::FirstName => Some(Object::Array(vec![Object::Name(b"NoId".to_vec()), hexs(&id1)])),
+                IdShape::NotArray => Some(hexs(id0)),
+            };
+            match v {
+                Some(o) => doc.trailer.set("ID", o),
+                None => {
+                    doc.trailer.remove(b"ID");
+                }
+            }
+        }
+    }
+
+    // -----------------------------------------------------------------------------------------
+    // replay form of documents: the JSON of `objjson` nests one JSON level per array and three per
+    // dictionary, and serde_json refuses to parse more than 128 levels. Deep documents are therefore
+    // written as a flat list of tokens in prefix order.
+
+    fn flat_obj(o: &Object, out: &mut Vec<Value>) {
+        use crate::objjson::hex;
+        match o {
+            Object::Null => out.push(json!("null")),
+            Object::Boolean(b) => out.push(json!(if *b { "true" } else { "false" })),
+            Object::Integer(i) => out.push(json!(format!("i:{}", i))),
+            Object::Real(r) => out.push(json!(format!("r:{}", r.to_bits()))),
+            Object::Name(n) => out.push(json!(format!("n:{}", hex(n)))),
+            Object::String(b, f) => out.push(json!(format!("{}:{}", if *f == StringFormat::Literal { "sL" } else { "sH" }, hex(b)))),
+            Object::Reference(id) => out.push(json!(format!("ref:{}:{}", id.0, id.1))),
+            Object::Array(a) => {
+                out.push(json!(format!("a:{}", a.len())));
+                for x in a {
+                    flat_obj(x, out);
+                }
+            }
+            Object::Dictionary(d) => {
+                out.push(json!(format!("d:{}", d.len())));
+                flat_dict(d, out);
+            }
+            Object::Stream(st) => {
+                out.push(json!(format!("st:{}:{}", st.dict.len(), hex(&st.content))));
+                flat_dict(&st.dict, out);
+            }
+        }
+    }
+
+    fn flat_dict(d: &Dictionary, out: &mut Vec<Value>) {
+        for (k, v) in d.iter() {
+            out.push(json!(format!("k:{}", crate::objjson::hex(k))));
+            flat_obj(v, out);
+        }
+    }
+
+    fn unflat_obj(t: &[Value], pos: &mut usize) -> Object {
+        use crate::objjson::unhex;
+        let tok = t[*pos].as_str().expect("flat token");
+        *pos += 1;
+        let (tag, rest) = tok.split_once(':').unwrap_or((tok, ""));
+        match tag {
+            "null" => Object::Null,
+            "true" => Object::Boolean(true),
+            "false" => Object::Boolean(false),
+            "i" => Object::Integer(rest.parse().expect("integer token")),
+            "r" => Object::Real(f32::from_bits(rest.parse().expect("real token"))),
+            "n" => Object::Name(unhex(rest)),
+            "sL" => Object::String(unhex(rest), StringFormat::Literal),
+            "sH" => Object::String(unhex(rest), StringFormat::Hexadecimal),
+            "ref" => {
+                let (a, b) = rest.split_once(':').expect("reference token");
+                Object::Reference((a.parse().unwrap(), b.parse().unwrap()))
+            }
+            "a" => {
+                let n: usize = rest.parse().expect("array token");
+                Object::Array((0..n).map(|_| unflat_obj(t, pos)).collect())
+            }
+            "d" => Object::Dictionary(unflat_dict(t, pos, rest.parse().expect("dictionary token"))),
+            "st" => {
+                let (n, content) = rest.split_once(':').expect("stream token");
+                let dict = unflat_dict(t, pos, n.parse().unwrap());
+                Object::Stream(Stream { dict, content: unhex(content), allows_compression: true, start_position: None })
+            }
+            other => panic!("bad flat token {:?}", other),
+        }
+    }
+
+    fn unflat_dict(t: &[Value], pos: &mut usize, n: usize) -> Dictionary {
+        let mut d = Dictionary::new();
+        for _ in 0..n {
+            let k = t[*pos].as_str().and_then(|s| s.strip_prefix("k:")).expect("key token").to_string();
+            *pos += 1;
+            d.set(crate::objjson::unhex(&k), unflat_obj(t, pos));
+        }
+        d
+    }
+
+    fn nesting(o: &Object) -> usize {
+        match o {
+            Object::Array(a) => 1 + a.iter().map(nesting).max().unwrap_or(0),
+            Object::Dictionary(d) => 1 + d.iter().map(|(_, x)| nesting(x)).max().unwrap_or(0),
+            Object::Stream(st) => 1 + st.dict.iter().map(|(_, x)| nesting(x)).max().unwrap_or(0),
+            _ => 0,
+        }
+    }
+
+    /// JSON form of a document for replay files: `objjson::doc_to_json`, or - when an object nests more than
+    /// 24 containers - the same header with the objects as flat token lists.
+    pub fn doc_to_portable(doc: &Document) -> Value {
+        if doc.objects.values().all(|o| nesting(o) <= 24) {
+            return crate::objjson::doc_to_json(doc);
+        }
+        let mut empty = doc.clone();
+        empty.objects.clear();
+        let mut v = crate::objjson::doc_to_json(&empty);
+        let objs: Vec<Value> = doc
+            .objects
+            .iter()
+            .map(|(id, o)| {
+                let mut toks = vec![];
+                flat_obj(o, &mut toks);
+                json!([id.0, id.1, toks])
+            })
+            .collect();
+        v["flat_objects"] = Value::Array(objs);
+        v
+    }
+
+    pub fn doc_from_portable(v: &Value) -> Document {
+        let mut doc = crate::objjson::doc_from_json(v);
+        if let Some(a) = v.get("flat_objects").and_then(|x| x.as_array()) {
+            for o in a {
+                let toks = o[2].as_array().expect("flat object tokens");
+                let mut pos = 0;
+                let obj = unflat_obj(toks, &mut pos);
+                assert_eq!(pos, toks.len(), "flat object has trailing tokens");
+                doc.objects.insert((o[0].as_u64().unwrap() as u32, o[1].as_u64().unwrap() as u16), obj);
+            }
+        }
+        doc
     }
 
     fn s(len: usize, salt: u32, hex: bool) -> Object {
@@ -1625,6 +2001,61 @@ pub mod menu {
                 objs.push(((4, 0), mk(Object::Name(b"Crypt".to_vec()), Some(parms(None)), 133)));
                 objs.push(((5, 0), mk(Object::Array(vec![Object::Name(b"Crypt".to_vec())]), Some(parms(Some(&named))), 134)));
                 objs.push(((6, 0), Object::Stream(Stream::new(Dictionary::new(), pattern(40, 135)))));
+            }
+            DocKind::DeepLoadable => return build_deep(kind, DEEP_LOADABLE_DEFAULT, id0),
+            DocKind::DeepMemory => return build_deep(kind, DEEP_MEMORY_DEFAULT, id0),
+            DocKind::CryptArray => {
+                objs.push(((1, 0), Object::Dictionary(dict(vec![("Type", Object::Name(b"Catalog".to_vec())), ("S", s(20, 500, false))]))));
+                let named = cfg.filter_name(cfg.strf);
+                let parms = |name: Option<&[u8]>| {
+                    let mut p = dict(vec![("Type", Object::Name(b"CryptFilterDecodeParms".to_vec()))]);
+                    if let Some(n) = name {
+                        p.set("Name", Object::Name(n.to_vec()));
+                    }
+                    Object::Dictionary(p)
+                };
+                let names = |v: &[&str]| Object::Array(v.iter().map(|n| Object::Name(n.as_bytes().to_vec())).collect());
+                // bodies are ASCII hex text so that the companion filter has something it could decode
+                let body = |len: usize, salt: u32| -> Vec<u8> { crate::objjson::hex(&pattern(len, salt)).into_bytes() };
+                let mk = |filters: Object, p: Object, content: Vec<u8>| Object::Stream(Stream::new(dict(vec![("Filter", filters), ("DecodeParms", p)]), content));
+                // the Crypt filter alone in a Filter array, parameters in a one-element array
+                objs.push(((2, 0), mk(names(&["Crypt"]), Object::Array(vec![parms(Some(&named))]), pattern(40, 501))));
+                objs.push(((3, 0), mk(names(&["Crypt"]), Object::Array(vec![parms(Some(b"Identity"))]), pattern(10, 502))));
+                // Crypt at position 0, 1 and 2 of a longer Filter array, null for the filters without parameters
+                objs.push(((4, 0), mk(names(&["Crypt", "ASCIIHexDecode"]), Object::Array(vec![parms(Some(&named)), Object::Null]), body(20, 503))));
+                objs.push(((5, 0), mk(names(&["ASCIIHexDecode", "Crypt"]), Object::Array(vec![Object::Null, parms(Some(b"Identity"))]), body(5, 504))));
+                objs.push((
+                    (6, 0),
+                    mk(names(&["ASCIIHexDecode", "ASCIIHexDecode", "Crypt"]), Object::Array(vec![Object::Null, Object::Null, parms(Some(&named))]), body(24, 505)),
+                ));
+                // parameter array too short (no entry at the Crypt position: Name missing, Identity)
+                objs.push(((7, 0), mk(names(&["ASCIIHexDecode", "Crypt"]), Object::Array(vec![Object::Null]), body(5, 506))));
+                // too long (the entry at the Crypt position applies)
+                objs.push(((8, 0), mk(names(&["Crypt", "ASCIIHexDecode"]), Object::Array(vec![parms(Some(&named)), Object::Null, Object::Null]), body(20, 507))));
+                // the entry at the Crypt position is not a dictionary (Identity)
+                objs.push(((9, 0), mk(names(&["ASCIIHexDecode", "Crypt"]), Object::Array(vec![Object::Null, Object::Integer(7)]), body(5, 508))));
+                // a dictionary naming a filter sits at the position of the *other* filter; null at the Crypt position (Identity)
+                objs.push(((10, 0), mk(names(&["ASCIIHexDecode", "Crypt"]), Object::Array(vec![parms(Some(&named)), Object::Null]), body(5, 509))));
+                // a lone dictionary next to a multi-filter array (tolerated spelling)
+                objs.push(((11, 0), mk(names(&["Crypt", "ASCIIHexDecode"]), parms(Some(&named)), body(20, 510))));
+                // entry at the Crypt position without Name (Identity)
+                objs.push(((12, 0), mk(names(&["Crypt"]), Object::Array(vec![parms(None)]), pattern(7, 511))));
+                objs.push(((13, 0), Object::Stream(Stream::new(Dictionary::new(), pattern(40, 512)))));
+            }
+            DocKind::CryptBare => {
+                objs.push(((1, 0), Object::Dictionary(dict(vec![("Type", Object::Name(b"Catalog".to_vec())), ("S", s(20, 520, false))]))));
+                let crypt = Object::Name(b"Crypt".to_vec());
+                objs.push(((2, 0), Object::Stream(Stream::new(dict(vec![("Filter", crypt.clone())]), pattern(40, 521)))));
+                objs.push(((3, 0), Object::Stream(Stream::new(dict(vec![("Filter", Object::Array(vec![crypt.clone()]))]), pattern(9, 522)))));
+                objs.push((
+                    (4, 0),
+                    Object::Stream(Stream::new(
+                        dict(vec![("Filter", Object::Array(vec![Object::Name(b"ASCIIHexDecode".to_vec()), crypt.clone()]))]),
+                        crate::objjson::hex(&pattern(6, 523)).into_bytes(),
+                    )),
+                ));
+                objs.push(((5, 0), Object::Stream(Stream::new(dict(vec![("Filter", crypt), ("DecodeParms", Object::Null)]), pattern(11, 524)))));
+                objs.push(((6, 0), Object::Stream(Stream::new(Dictionary::new(), pattern(40, 525)))));
             }
             DocKind::MetaDict => {
                 let meta = |salt: u32| {
@@ -1728,12 +2159,7 @@ pub mod menu {
             doc.max_id = doc.max_id.max(id.0);
             doc.objects.insert(id, o);
         }
-        doc.trailer.set("Root", Object::Reference((1, 0)));
-        let id1: Vec<u8> = id0.iter().map(|b| b ^ 0x5a).collect();
-        doc.trailer.set(
-            "ID",
-            Object::Array(vec![Object::String(id0.to_vec(), StringFormat::Hexadecimal), Object::String(id1, StringFormat::Hexadecimal)]),
-        );
+        finish_trailer(&mut doc, id0);
         doc
     }
 
@@ -1756,11 +2182,14 @@ pub mod menu {
     /// `f(path, leaf kind, nominal method, plaintext bytes, other bytes)` for every string / stream body.
     /// Returns false if the two objects do not have the same shape.
     pub fn zip_leaves(cfg: &Config, plain: &Object, other: &Object, path: &str, f: &mut dyn FnMut(&str, Leaf, F, &[u8], &[u8])) -> bool {
-        zip_inner(cfg, plain, other, path, 0, f)
+        let mut buf = path.to_string();
+        zip_inner(cfg, plain, other, &mut buf, 0, f)
     }
 
-    /// `ctx`: 0 ordinary, 1 inside a stream dictionary, 2 inside a non-stream dictionary typed /Metadata
-    fn zip_inner(cfg: &Config, plain: &Object, other: &Object, path: &str, ctx: u8, f: &mut dyn FnMut(&str, Leaf, F, &[u8], &[u8])) -> bool {
+    /// `ctx`: 0 ordinary, 1 inside a stream dictionary, 2 inside a non-stream dictionary typed /Metadata.
+    /// `path` is one buffer that grows and shrinks with the recursion (the deep documents nest > 1000 levels).
+    fn zip_inner(cfg: &Config, plain: &Object, other: &Object, path: &mut String, ctx: u8, f: &mut dyn FnMut(&str, Leaf, F, &[u8], &[u8])) -> bool {
+        use std::fmt::Write as _;
         match (plain, other) {
             (Object::String(a, _), Object::String(b, _)) => {
                 let m = if cfg.has_filters() { cfg.strf } else { F::Rc4 };
@@ -1773,7 +2202,19 @@ pub mod menu {
                 true
             }
             (Object::Array(a), Object::Array(b)) => {
-                a.len() == b.len() && a.iter().zip(b.iter()).enumerate().all(|(i, (x, y))| zip_inner(cfg, x, y, &format!("{}[{}]", path, i), ctx, f))
+                if a.len() != b.len() {
+                    return false;
+                }
+                let keep = path.len();
+                for (i, (x, y)) in a.iter().zip(b.iter()).enumerate() {
+                    let _ = write!(path, "[{}]", i);
+                    let ok = zip_inner(cfg, x, y, path, ctx, f);
+                    path.truncate(keep);
+                    if !ok {
+                        return false;
+                    }
+                }
+                true
             }
             (Object::Dictionary(a), Object::Dictionary(b)) => {
                 let meta = ctx == 0 && matches!(a.get(b"Type"), Ok(Object::Name(n)) if n == b"Metadata");
@@ -1785,18 +2226,29 @@ pub mod menu {
                     return true;
                 }
                 let m = stream_method(cfg, &a.dict);
-                f(&format!("{}.body", path), Leaf::Body, m, &a.content, &b.content);
-                zip_dict(cfg, &a.dict, &b.dict, &format!("{}.dict", path), 1, f)
+                let keep = path.len();
+                path.push_str(".body");
+                f(path, Leaf::Body, m, &a.content, &b.content);
+                path.truncate(keep);
+                path.push_str(".dict");
+                let ok = zip_dict(cfg, &a.dict, &b.dict, path, 1, f);
+                path.truncate(keep);
+                ok
             }
             (a, b) => std::mem::discriminant(a) == std::mem::discriminant(b),
         }
     }
 
-    fn zip_dict(cfg: &Config, a: &Dictionary, b: &Dictionary, path: &str, ctx: u8, f: &mut dyn FnMut(&str, Leaf, F, &[u8], &[u8])) -> bool {
+    fn zip_dict(cfg: &Config, a: &Dictionary, b: &Dictionary, path: &mut String, ctx: u8, f: &mut dyn FnMut(&str, Leaf, F, &[u8], &[u8])) -> bool {
+        let keep = path.len();
         for (k, x) in a.iter() {
             match b.get(k) {
                 Ok(y) => {
-                    if !zip_inner(cfg, x, y, &format!("{}/{}", path, String::from_utf8_lossy(k)), ctx, f) {
+                    path.push('/');
+                    path.push_str(&String::from_utf8_lossy(k));
+                    let ok = zip_inner(cfg, x, y, path, ctx, f);
+                    path.truncate(keep);
+                    if !ok {
                         return false;
                     }
                 }
@@ -1817,11 +2269,21 @@ pub mod menu {
             _ => false,
         };
         if has_crypt {
-            let name = match d.get(b"DecodeParms") {
-                Ok(Object::Dictionary(p)) => match p.get(b"Name") {
-                    Ok(Object::Name(n)) => Some(n.clone()),
+            // the parameters of the Crypt filter: a lone dictionary, or the entry at the filter's position in an array
+            let pos = match d.get(b"Filter") {
+                Ok(Object::Array(a)) => a.iter().position(|x| matches!(x, Object::Name(n) if n == b"Crypt")).unwrap_or(0),
+                _ => 0,
+            };
+            let parms = match d.get(b"DecodeParms") {
+                Ok(Object::Dictionary(p)) => Some(p),
+                Ok(Object::Array(a)) => match a.get(pos) {
+                    Some(Object::Dictionary(p)) => Some(p),
                     _ => None,
                 },
+                _ => None,
+            };
+            let name = match parms.map(|p| p.get(b"Name")) {
+                Some(Ok(Object::Name(n))) => Some(n.clone()),
                 _ => None,
             };
             return cfg.method_of_name(name.as_deref());
